@@ -120,6 +120,7 @@ def build(rc):
         else:
             lay = und[li % len(und)]
             z = lay.bottom if fr == 0 else lay.bottom + fr * (lay.top - lay.bottom)
+        if z <= und[-1].bottom: z = und[-1].centre      # never at or below the bottom of the model
         col.surface = float(z)
         g.set_column_num_layers(col)
     for ci, fx, fy in rc.get('centres', []):
